@@ -37,7 +37,8 @@ static void check_common(const uint8_t *digest) {
 }
 
 static void run_split(size_t s1, size_t s2) {
-	a_ctx_t *ctx = (a_ctx_t *)v_alloc(sizeof(a_ctx_t));
+	a_ctx_t ctx_obj;	/* typed object: fields stay separate in CBMC; out-of-object access is still a violation */
+	a_ctx_t *ctx = &ctx_obj;
 	uint8_t *c1 = v_buf(IN.msg, s1), *c2 = v_buf(IN.msg + s1, s2 - s1), *c3 = v_buf(IN.msg + s2, LEN - s2);
 	uint8_t *digest = (uint8_t *)v_alloc(A_DIG);
 
